@@ -38,6 +38,13 @@ def main():
            "alarms": alarms}
     dst = VERIF / "harmless" / a.id
     dst.mkdir(parents=True, exist_ok=True)
+    if a.props != ALL and (dst / "result.json").exists():      # a partial re-run refreshes only the named checks
+        old = json.loads((dst / "result.json").read_text())
+        old["checks_run"].update(out["checks_run"])
+        old["alarms"] = {k: v for k, v in old["alarms"].items() if k not in out["checks_run"]}
+        old["alarms"].update(alarms)
+        out = old
+        alarms = out["alarms"]
     shutil.copy(src / "patch.diff", dst / "patch.diff")
     (dst / "result.json").write_text(json.dumps(out, indent=1))
     print(a.id, "alarms:", sorted(alarms) or "none")
